@@ -273,6 +273,10 @@ def body(PROP, plan):
         panics = [e for e in evs if e["ev"] in ("panic",)] + [e for e in ends if e["fatal"]]
         if not res.violations:
             if stuck:
+                if os.environ.get("VERIF_DEBUG_STUCK"):
+                    k = next(i for i, e in enumerate(ends) if e is stuck[0])
+                    s0, e0 = spans[k]
+                    json.dump(dict(behaviour=behs[k], trace=evs[s0:e0]), open(os.environ["VERIF_DEBUG_STUCK"], "w"), indent=1)
                 raise V.Infra("%d of %d replays did not come to rest (not judged): %s" % (len(stuck), len(ends), stuck[0]["stuck"]))
             if panics:
                 raise V.Infra("the node panicked / gave up during replay without a property violation: %s" % json.dumps(panics[0])[:300])
